@@ -104,6 +104,13 @@ impl DataMap {
                 (final(self).mem(n@) is Some) == (old(self).mem(n@) is Some),
                 final(self).mem(n@) matches Some(m) ==> umirror(m, keys_of(metadata.columns@, schema, rows@)),
     { unimplemented!() }
+    // the `match index_data { .. }` step of update_indexes_for_delete  (unit I-maint delete_step)
+    #[verifier::external_body]
+    pub fn delete_step_at(&mut self, n: &Str, metadata: &IndexMetadata, key_values: Vec<SqlValue>, row_index: usize)
+        requires old(self).has(n@),
+        ensures forall|x: Seq<char>| #![trigger final(self).mem(x)] #![trigger final(self).has(x)] final(self).has(x) == old(self).has(x) && (x != n@ ==> final(self).mem(x) == old(self).mem(x)),
+                final(self).mem(n@) == (match old(self).mem(n@) { Some(m) => Some(ix_without(m, key_values@, row_index)), None => None::<Ix> }),
+    { unimplemented!() }
     // the `match index_data { .. }` step of update_indexes_for_update  (unit I-maint update_step)
     #[verifier::external_body]
     pub fn update_step_at(&mut self, n: &Str, metadata: &IndexMetadata, old_key_values: Vec<SqlValue>, new_key_values: Vec<SqlValue>, row_index: usize)
@@ -117,6 +124,9 @@ pub struct IndexManager { pub indexes: Registry, pub index_data: DataMap }
 /// what the insert maintenance does to the in-memory data of entry i of the registry
 pub open spec fn ins_effect(e: (Str, IndexMetadata), t: Seq<char>, schema: &TableSchema, row: Row, p: usize, before: Option<Ix>) -> Option<Ix> {
     match before { Some(m) => if e.1.table_name@ == t { Some(ix_with(m, key_of(e.1.columns@, schema, row), p)) } else { Some(m) }, None => None }
+}
+pub open spec fn del_effect(e: (Str, IndexMetadata), t: Seq<char>, schema: &TableSchema, row: Row, p: usize, before: Option<Ix>) -> Option<Ix> {
+    match before { Some(m) => if e.1.table_name@ == t { Some(ix_without(m, key_of(e.1.columns@, schema, row), p)) } else { Some(m) }, None => None }
 }
 pub open spec fn upd_effect(e: (Str, IndexMetadata), t: Seq<char>, schema: &TableSchema, old_row: Row, new_row: Row, p: usize, before: Option<Ix>) -> Option<Ix> {
     match before {
@@ -135,6 +145,8 @@ impl IndexManager {
 //@@ add_to_indexes_for_insert
 
 //@@ update_indexes_for_update
+
+//@@ update_indexes_for_delete
 
 //@@ rebuild_indexes
 
@@ -216,6 +228,29 @@ ITEMS = {
             forall|x: Seq<char>| #![trigger final(self).index_data.mem(x)] !named(old(self).indexes.entries(), x) ==> final(self).index_data.mem(x) == old(self).index_data.mem(x),
 '''),
 }
+ITEMS['update_indexes_for_delete'] = dict(
+        file=_F, path='impl IndexManager::fn update_indexes_for_delete',
+        elide=[dict(kind='closure', index=0, expect_params='col', to='KEY_OF__row'),
+               dict(kind='match', index=0, expect_scrutinee='index_data', to='self.index_data.delete_step_at(index_name, metadata, key_values, row_index);')],
+        rewrites=_RW,
+        loops={0: '''
+            invariant''' + _INV_COMMON + '''
+                forall|i: int| 0 <= i < self.indexes.entries().len() ==> cols_ok((#[trigger] self.indexes.entries()[i]).1.columns@, table_schema, *row),
+                forall|i: int| #![trigger self.indexes.entries()[i]] 0 <= i < self.indexes.entries().len() ==> self.index_data.mem(self.indexes.entries()[i].0@) ==
+                    (if i < ri__ { del_effect(self.indexes.entries()[i], table_name@, table_schema, *row, row_index, old(self).index_data.mem(self.indexes.entries()[i].0@)) }
+                     else { old(self).index_data.mem(self.indexes.entries()[i].0@) }),
+            decreases self.indexes.entries().len() - ri__,
+'''},
+        contract='''
+        requires old(self).indexes.wf(),
+                 forall|i: int| 0 <= i < old(self).indexes.entries().len() ==> cols_ok((#[trigger] old(self).indexes.entries()[i]).1.columns@, table_schema, *row),
+        ensures
+            final(self).indexes == old(self).indexes,
+            // EVERY index registered for the table loses the position under ITS key of the row (no other position is adjusted: a removal that shifts rows needs the rebuild); nothing else changes
+            forall|i: int| #![trigger old(self).indexes.entries()[i]] 0 <= i < old(self).indexes.entries().len() ==> final(self).index_data.mem(old(self).indexes.entries()[i].0@) ==
+                del_effect(old(self).indexes.entries()[i], table_name@, table_schema, *row, row_index, old(self).index_data.mem(old(self).indexes.entries()[i].0@)),
+            forall|x: Seq<char>| #![trigger final(self).index_data.mem(x)] !named(old(self).indexes.entries(), x) ==> final(self).index_data.mem(x) == old(self).index_data.mem(x),
+''')
 ITEMS['rebuild_indexes'] = dict(
         file=_F, path='impl IndexManager::fn rebuild_indexes',
         elide=[dict(kind='match', index=0, expect_scrutinee='index_data', to='self.index_data.rebuild_step_at(&index_name, metadata, table_schema, table_rows);')],
@@ -296,14 +331,15 @@ ITEMS['check_unique_constraints_for_insert'] = dict(
                 && !key_has_null(key_of(self.indexes.entries()[i].1.columns@, table_schema, *row))
                 && (self.index_data.mem(self.indexes.entries()[i].0@) is Some ==> refuses(self.indexes.entries()[i], table_name@, table_schema, *row, self.index_data.mem(self.indexes.entries()[i].0@))),
 ''')
+OBLIGATIONS['update_indexes_for_delete'] = ['post:every_index_of_the_table_loses_the_position_under_its_key__others_untouched', 'proof:loop_invariant_and_termination', 'safety:key_columns_exist']
 OBLIGATIONS['rebuild_indexes'] = ['post:every_in_memory_index_of_the_table_ends_as_the_mirror_of_the_rows__others_untouched', 'proof:loop_invariant_and_termination']
 OBLIGATIONS['check_unique_constraints_for_insert'] = ['post:accepted_iff_no_in_memory_unique_index_of_the_table_holds_the_rows_key', 'proof:loop_invariant_and_termination', 'safety:key_columns_exist']
 CANARIES = ['canary_insert']
 TRUSTED = [
     'R6b (elide): the key-building closures `|col| { .. }` and the `match index_data { .. }` step inside the loop bodies are replaced by calls - build_key (`metadata.columns.iter().map(closure).collect()`: ASSUMED one component per index column in definition order, each the closure applied to that column; the closure itself: unit I-maint key_insert / key_update_old / key_update_new) and DataMap::insert_step_at / update_step_at (external_body with the contracts PROVED for the lifted steps in unit I-maint, applied to the entry `get_mut(index_name)` finds - R12); located by the same token rule that lifts them there',
-    'external_body Registry (HashMap<String, IndexMetadata> as the list of its entries, names distinct, visited in list order - any order: len_, name_at, meta_at, get, names_for_table = `iter().filter(|(_, m)| m.table_name == table_name).map(|(n, _)| n.clone()).collect()` ASSUMED to return exactly the names registered for the table, each once), DataMap (contains_key, insert_step_at, update_step_at, rebuild_step_at, check_step_at; (HashMap<String, IndexData>: has = an entry exists, mem = its key -> positions map when held in memory); the disk-backed arm is opaque (mem = None)',
+    'external_body Registry (HashMap<String, IndexMetadata> as the list of its entries, names distinct, visited in list order - any order: len_, name_at, meta_at, get, names_for_table = `iter().filter(|(_, m)| m.table_name == table_name).map(|(n, _)| n.clone()).collect()` ASSUMED to return exactly the names registered for the table, each once), DataMap (contains_key, insert_step_at, update_step_at, delete_step_at, rebuild_step_at, check_step_at; (HashMap<String, IndexData>: has = an entry exists, mem = its key -> positions map when held in memory); the disk-backed arm is opaque (mem = None)',
     'external_body str_eq (`String == &str`), key_ne (`Vec<SqlValue> != Vec<SqlValue>`); key_part / col_ok uninterpreted here (defined in unit I-maint); SqlValue, Str, TableSchema, StorageError opaque; Row / IndexColumn / IndexMetadata / IndexManager reduced to the fields read',
     'precondition: every registered index has columns that exist in the schema and in the row (Option::expect in the closure panics otherwise): established by CREATE INDEX validation, not here',
     'check_unique_constraints_for_insert: has_null (`key_values.contains(&SqlValue::Null)`, is_null uninterpreted); a refusal by a disk-backed index or a failed lock is allowed by the contract (Err only requires a UNIQUE index of the table with a NULL-free key)',
-    'update_indexes_for_delete (same loop; DELETE rebuilds afterwards) and the manager-level rebuild_indexes / create_index (bulk build over BTreeMap; unit I-resolve covers the Operations-level callers) are not under contract here',
+    'the manager-level create_index (registration, backend choice; its uniqueness check and in-memory build: units K-uqcreate, I-maint create_build) and drop_index are not under contract here',
 ]
